@@ -214,3 +214,25 @@ def opWfIn (d : DidState) : Op → Bool
   | _ => true
 
 end SaoVerif
+
+/-! ### Parameter validation (x/node/types/params.go: `Params.Validate` and the per-key validators of the parameter store) -/
+namespace SaoVerif
+
+/-- the first validator that refuses, in the order of `Params.Validate`; `none` = accepted. (`apyOk` = the yield parses as a
+    decimal; the share threshold is compared as the Go code does, after conversion to a float, with 0.01.) -/
+def paramsRefusal (p : NodeParams) : Option String :=
+  if p.blockReward < 0 then some "invalid block reward"
+  else if !p.apyOk then some "invalid decimal"
+  else if p.apy < 0 then some "invalid annual percentage yield"
+  else if !(10 < p.halvingPeriod) then some "invalid period"
+  else if !(10 < p.adjustmentPeriod) then some "invalid period"
+  else if !(0 < p.penaltyBase) then some "invalid penalty base"
+  else if !(10 < p.maxPenalty) then some "invalid max penalty"
+  else if p.shareThreshold < 10000000000000000 then some "invalid share threshold"
+  else if !(0 < p.vstorageThreshold) then some "invalid vstorage threshold"
+  else if !(0 < p.offlineTriggerHeight) then some "invalid offline trigger height"
+  else none
+
+def paramsValidate (p : NodeParams) : Bool := (paramsRefusal p).isNone
+
+end SaoVerif
